@@ -11,6 +11,63 @@ TECHNIQUE = ('exhaustive enumeration of the product of element value domains (al
 V_FULL = [None, 'a', 'A b', 'x/y', '%2F', '&=?#+', 'ä€', '..']
 V_QUICK = [None, 'a', 'x/y', '&=?#+ä']
 ELEMENTS = ('fac', 'bldng', 'flr', 'poc', 'rm', 'bed')
+# texts that look like something else once they are encoded or decoded one time too many / too few
+TRICKY = ['%2F', 'Bed%2F7', '100%41', 'A%20B', 'caf%C3%A9', '%', '%%', '%zz', '%4', 'x%', '%25', '%2541', 'a+b', '+', '%2B', 'a b',
+          ' a', 'a ', 'a&b=c', '?', '#', 'a;b', 'a=b', '/', '//', '../x', '%00', '\\', "'", '"', 'ä', '€%E2%82%AC', 'sdc.ctxt.loc:/x', ':']
+
+
+def _roundtrip_tricky(acc, arg):
+    """Every tricky text in every element (the others typical or absent), and every pair of tricky texts in two elements."""
+    from sdc11073.location import SdcLocation
+    warnings.simplefilter('ignore')
+    for values in arg:
+        loc = _loc(values)
+        acc.add('states')
+        acc.transition()
+        acc.evals()
+        acc.trace()
+        try:
+            s = loc.scope_string
+            back = SdcLocation.from_scope_string(s)
+        except Exception as ex:  # noqa: BLE001
+            acc.violation(f'roundtrip/raises/{_shape(values)}', {'values': values, 'error': repr(ex)},
+                          case={'kind': 'roundtrip', 'values': list(values)})
+            continue
+        if back != loc:
+            acc.violation(f'roundtrip/differs/{_shape(values)}',
+                          {'values': values, 'scope': s, 'parsed': [getattr(back, e) for e in ELEMENTS]},
+                          case={'kind': 'roundtrip', 'values': list(values)})
+            continue
+        # a location is inside itself and inside every enclosing location; a location that differs in one element is not
+        # the same place
+        for i, v in enumerate(values):
+            if v is None:
+                continue
+            other = list(values)
+            other[i] = 'BedA7' if v != 'BedA7' else 'zz'
+            if _loc(tuple(other)).scope_string == s:
+                acc.violation(f'roundtrip/different-locations-same-scope/{_shape(values)}', {'a': values, 'b': other, 'scope': s},
+                              case={'kind': 'roundtrip', 'values': list(values)})
+
+
+def tricky_locations(quick):
+    out = []
+    for i in range(6):
+        for t in TRICKY:
+            for filler in ('a', None):
+                v = [filler] * 6
+                v[i] = t
+                out.append(tuple(v))
+    pairs = TRICKY[:12] if quick else TRICKY
+    for i, j in itertools.combinations(range(6), 2):
+        if quick and (i, j) not in ((0, 5), (2, 3)):
+            continue
+        for a in pairs:
+            for b in pairs:
+                v = ['a'] * 6
+                v[i], v[j] = a, b
+                out.append(tuple(v))
+    return out
 
 
 def _loc(values):
@@ -180,6 +237,14 @@ def run(ctx):
                 'locations. distinct_nontrivial counts enumerated cases (distinct by construction)' % (domain, len(foreign_scopes())))
     jobs = [([fv], domain) for fv in ctx.rotate(domain)]
     ctx.pmap(_roundtrip_chunk, jobs, chunksize=1)
+    tl = tricky_locations(ctx.quick)
+    ctx.note('tricky_locations', len(tl))
+    n = max(1, len(tl) // 32)
+    ctx.pmap(_roundtrip_tricky, [tl[i:i + n] for i in range(0, len(tl), n)], chunksize=1)
+    # the published scope of a tricky location must be found inside that location (real provider path)
+    tp = [v for v in tl if all(x is not None for x in v)][::7 if ctx.quick else 1]
+    n = max(1, len(tp) // 32)
+    ctx.pmap(_published_chunk, [tp[i:i + n] for i in range(0, len(tp), n)], chunksize=1)
     pub_domain = [None, 'a', 'x/y &=?#+ä'] if ctx.quick else [None, 'a', 'A b', 'x/y', '&=?#+ä€%2F']
     combos = list(itertools.product(pub_domain, repeat=6))
     n = max(1, len(combos) // 32)
